@@ -171,6 +171,16 @@ def run_unit(unit, twin=False, rlimit=None, threads=2, auto_fns=None, _depth=0, 
                     key = (o[1], f'method:{m.group(2)}:{m.group(1)}')
                     if o[0] == 'repo' and key not in (auto_fns or {}):
                         missing.setdefault(key, set()).update(caller['props'] if caller else [])
+    # ... or a named constant
+    for d in diags:
+        m = re.search(r'cannot find value `([A-Z][A-Z0-9_]+)` in this scope', d.get('message', ''))
+        if m and d.get('level') == 'error':
+            for sp in d.get('spans', []):
+                if sp.get('is_primary') and 0 < sp['line_start'] <= len(g.origin):
+                    o = g.origin[sp['line_start'] - 1]
+                    key = (o[1], f'const:{m.group(1)}')
+                    if o[0] == 'repo' and key not in (auto_fns or {}):
+                        missing.setdefault(key, set())
     if missing and _depth < 3:
         merged = dict(auto_fns or {})
         for k, v in missing.items():
